@@ -28,6 +28,7 @@ RUNS = [
     ("C12_sim", ("simulate", 700, 0), ("simulate", 3000, 0)),
     ("C12_evict_d3", ("bfs", None, 0), ("bfs", None, 1)),
     ("C12_mutex_d2", ("bfs", None, 1), ("bfs", None, 1)),
+    ("C12_filter_d1", ("bfs", None, 0), ("bfs", None, 1)),
     ("C12_evict_d4", None, ("bfs", None, 0)),
 ]
 
@@ -43,7 +44,9 @@ def run(ctx):
                 "C12_evict_d3 = every history of 3 steps over roaring import set/clear of {1},{2,3},{1,2,3} into 2 rows "
                 "and Recalculate, cache size 1 (d4: 4 steps, column sets {1},{1,2,3}); C12_mutex_d2 = every pair of steps over "
                 "single-row imports and 'Recalculate; TopN' on a mutex field of 3 rows x 2 columns from 3 stored shapes, LRU cache of "
-                "size 2, each replayed 8 times (map iteration order); evict runs for ranked and LRU (TLC BFS). Behaviours of one configuration are replayed 8 per "
+                "size 2, each replayed 8 times (map iteration order); evict runs for ranked and LRU; C12_filter_d1 = "
+                "'Recalculate; TopN(f, Row(f=fr), n)' for n in {1,2} on every contents of 3 rows x 3 columns and every filter row "
+                "for which the order of the rows by count differs from their order by filtered count, cache size 3 (TLC BFS). Behaviours of one configuration are replayed 8 per "
                 "field (emptied in between) under a seeded refinement (row ids, column blocks in 1 or 2 shards, import order, "
                 "roaring encoding), asking only the behaviour's queries (sparse) or also TopN(ids = all rows) after every "
                 "write (full); one evaluation = one behaviour under one variant, every answer compared.")
